@@ -267,6 +267,62 @@ def FrameStream_Close : List String := [
   "s.writeEOF = true",
   "return nil"
 ]
+def runBidirectionalForward : List String := [
+  "done := make(chan struct{}, 2)",
+  "var closeOnce sync.Once",
+  "var uploadDone, downloadDone int32",
+  "logPrefix := config.LogPrefix",
+  "if logPrefix == \"\"",
+  "logPrefix = \"BidirectionalForward\"",
+  "end",
+  "closeAll := func",
+  "closeOnce.Do(func",
+  "if err := config.RemoteConn.Close(); err != nil",
+  "end",
+  "if config.LocalConnCloser != nil",
+  "if err := config.LocalConnCloser.Close(); err != nil",
+  "end",
+  "else",
+  "if closer, ok := config.LocalConn.(io.Closer); ok",
+  "if err := closer.Close(); err != nil",
+  "end",
+  "end",
+  "end",
+  "end)",
+  "end",
+  "localConn := config.LocalConn",
+  "if config.BytesSentCounter != nil || config.BytesReceivedCounter != nil",
+  "localConn = NewCountingReadWriter( config.LocalConn, config.BytesSentCounter, config.BytesReceivedCounter, )",
+  "end",
+  "go func",
+  "defer func",
+  "atomic.StoreInt32(&uploadDone, 1)",
+  "if halfCloser, ok := config.RemoteConn.(HalfCloser); ok",
+  "if err := halfCloser.CloseWrite(); err != nil",
+  "else",
+  "end",
+  "end",
+  "if atomic.LoadInt32(&downloadDone) == 1",
+  "closeAll()",
+  "end",
+  "done <- struct{}{}",
+  "end()",
+  "n, err := io.Copy(config.RemoteConn, localConn)",
+  "end()",
+  "go func",
+  "defer func",
+  "atomic.StoreInt32(&downloadDone, 1)",
+  "if atomic.LoadInt32(&uploadDone) == 1",
+  "closeAll()",
+  "end",
+  "done <- struct{}{}",
+  "end()",
+  "n, err := io.Copy(localConn, config.RemoteConn)",
+  "end()",
+  "<-done",
+  "<-done",
+  "closeAll()"
+]
 end Flow
 
 end Gen
